@@ -287,6 +287,7 @@ func genC16(r *Rand, tier string, i int) *h.Scenario {
 	p.PEwma = 0.3
 	p.PListener = 0.3
 	p.PNotifier = 0.4
+	p.PNarrow = 0.15 // rows too narrow for their decorators: truncated, and nothing must be left behind either
 	sc := GenBase(r, &p)
 	if r.Bool(0.3) {
 		sc.Serial = r.Range(2, 4)
